@@ -84,9 +84,32 @@ pub fn break_workspace(ws: &mut Workspace, c: &mut Choices, cfg: &BreakCfg) -> V
                     }
                 }
             }
-            6 => {
+            6 if c.chance(128) => {
                 ws.files[fi].text.push_str("\nfn broken_case(x, y) {\n  case x { a, b -> b\n    #(p, q), r, s -> s\n    _ -> y }\n  case x, y { a -> a }\n}\n");
                 log.push(format!("clause/subject arity mismatch in file {}", fi));
+            }
+            6 => {
+                // ill-formed but parseable shapes an editor passes through while code is being typed
+                const SNIPPETS: &[&str] = &[
+                    "\nfn alt_short(a, b) {\n  case a, b {\n    1, 2 | 3 -> 1\n    _, _ -> 2\n  }\n}\n",
+                    "\nfn alt_long(a, b) {\n  case a, b {\n    1 | 2, 3 | 4, 5, 6 -> 1\n    x | y, z -> 2\n  }\n}\n",
+                    "\nfn alt_empty(a) {\n  case a {\n    | 1 -> 1\n    2 | -> 2\n    | -> 3\n  }\n}\n",
+                    "\nfn twice(a) { a }\nfn twice(a, b) { b }\nfn use_twice() { twice(1) }\n",
+                    "\nfn over(x) { x }\nfn call_over() { over(1, 2, extra: 3) |> over(4, 5) }\n",
+                    "\ntype Dup { Dup(a: Int) Dup(a: String, a: Int) }\nfn use_dup(d: Dup) { d.a }\n",
+                    "\nfn lab(a a: Int, a b: Int) { lab(a: 1, a: 2, 3) }\n",
+                    "\nfn tup(t) { t.9 + t.0.x + #(1).5 }\n",
+                    "\nfn upd(r) { Nope(..r, x: 1) |> Nope(..) }\n",
+                    "\nfn usee() {\n  use a, b <- nothing\n  use <- 1\n  use x <- usee(x)\n  x\n}\n",
+                ];
+                let sn = SNIPPETS[c.below(SNIPPETS.len())];
+                ws.files[fi].text.push_str(sn);
+                log.push(format!("ill-formed snippet in file {}: {}", fi, sn.trim().lines().next().unwrap_or("")));
+            }
+            7 if c.chance(90) => {
+                // a byte order mark, as some editors write it
+                ws.files[fi].text = format!("\u{feff}{}", ws.files[fi].text);
+                log.push(format!("byte order mark at the start of file {}", fi));
             }
             7 => {
                 ws.files[fi].text.push_str("\nconst é = 1\nfn ünï(ä) { \"💣\" <> ä }\n// трейлинг 💣");
